@@ -435,7 +435,7 @@ func runC18(c *CaseCtx) {
 func init() {
 	register(&Check{
 		ID: "C14", Level: "exploration",
-		NCases:       func(t string) int { return tier(t, 64, 3000) },
+		NCases:       func(t string) int { return tier(t, 64, 1500) },
 		Run:          runC14,
 		Workers:      8,
 		CaseDeadline: 8 * time.Minute, // wall-clock watchdog only: its firing is inconclusive unless the dump shows a lock deadlock
@@ -453,11 +453,11 @@ func init() {
 	})
 	register(&Check{
 		ID: "C17", Level: "exploration", LeakClass: "merge-concurrent",
-		NCases:       func(t string) int { return tier(t, 48, 900) },
+		NCases:       func(t string) int { return tier(t, 48, 400) },
 		Run:          runC17,
 		Workers:      8,
 		CaseDeadline: 8 * time.Minute, // wall-clock watchdog only (see C14)
-		Rule: "case = as C14 (race detector + recorded history + porcupine) on one RAM-mode database with small segments while 1-2 extra goroutines call Merge in a loop; KV and sets only (for which a sequential Merge preserves contents, so that a discrepancy is attributable to concurrency); Merge is not an operation of the model - it must be invisible; " +
+		Rule: "[also: variants - handle merged before the workload; every key of the workload put and deleted in every shard bucket and the database merged before the workload (drained start); records stamped far in the future] case = as C14 (race detector + recorded history + porcupine) on one RAM-mode database with small segments while 1-2 extra goroutines call Merge in a loop; KV and sets only (for which a sequential Merge preserves contents, so that a discrepancy is attributable to concurrency); Merge is not an operation of the model - it must be invisible; " +
 			"non-trivial = at least one successful Merge overlapped the workload",
 		Assumptions: []string{"as C14"},
 		Post:        racePost("merge-concurrent"),
@@ -470,10 +470,10 @@ func init() {
 	})
 	register(&Check{
 		ID: "C18", Level: "exploration",
-		NCases:  func(t string) int { return tier(t, 96, 10000) },
+		NCases:  func(t string) int { return tier(t, 96, 5000) },
 		Run:     runC18,
 		Workers: 8,
-		Rule: "case = 0-8 writer goroutines execute a pre-generated script indexed by an in-database sequence key (so the state after n commits is the deterministic S(n)) while Backup(dir) is called 1-3 times into fresh directories, under the race detector, in all index modes and RWModes; " +
+		Rule: "[also: 1 case in 8 is a quiescent Backup of a large-geometry history (opened and compared with the model); a quarter of the RAM-mode cases run Merge in a loop next to writers and Backups over a few dozen sealed segments (list-free scripts)] case = 0-8 writer goroutines execute a pre-generated script indexed by an in-database sequence key (so the state after n commits is the deterministic S(n)) while Backup(dir) is called 1-3 times into fresh directories, under the race detector, in all index modes and RWModes; " +
 			"oracle: the backup opens with the same options, its own sequence value n lies between the number of commits that had returned when Backup was called and the number that had started when it returned, and its full observation equals S(n); non-trivial = >=5 commits; distinct by script hash",
 		Assumptions: []string{"script operations whose outcome the model leaves open are removed so that S(n) is exact"},
 		Post:        racePost("backup"),
